@@ -247,6 +247,16 @@ def worker_main(args):
     ctx = Ctx(args.prop, args.tier, args.seed, args.shard, args.nshards, plan, mirror=args.mirror)
     status = "ok"
     reach = None
+    cover = None
+    if os.environ.get("VERIF_COVERAGE"):
+        # developer aid (tools/coverage_report.sh): which lines of statham the workload of a check drives;
+        # must start before statham is imported so that module-level lines count
+        import coverage  # pylint: disable=import-outside-toplevel
+
+        cover = coverage.Coverage(data_file=os.path.join(os.environ["VERIF_COVERAGE"], f"cov.{args.prop}"),
+                                  data_suffix=True, branch=True,
+                                  source=[os.path.join(bootstrap.REPO, "statham")])
+        cover.start()
     try:
         bootstrap.import_statham()
         reach = start_reach(mod)
@@ -259,6 +269,9 @@ def worker_main(args):
             "harness error in shard %d: %s" % (args.shard, traceback.format_exc()[-700:])
         )
     finally:
+        if cover is not None:
+            cover.stop()
+            cover.save()
         ctx.cleanup()
         if reach is not None:
             try:
